@@ -35,6 +35,9 @@ func Generate(r *rand.Rand, profile string) *Scenario {
 	if profile == "sat" {
 		return generateSaturation(r)
 	}
+	if profile == "flat" {
+		return generateFlat(r)
+	}
 	if profile == "bindfail" || profile == "overhead" || profile == "nested" || profile == "sharers" {
 		return generateTight(r, profile)
 	}
@@ -1015,6 +1018,68 @@ func generateSaturation(r *rand.Rand) *Scenario {
 		}
 		sc.Jobs = append(sc.Jobs, Job{Name: fmt.Sprintf("j%d", k), Queue: leaf, Prio: pick(50, 50, 60), Preempt: pick(1, 1, 1, 0), Min: 1, Age: 600 + 60*i, LastStart: -1})
 		sc.Pods = append(sc.Pods, Pod{Name: fmt.Sprintf("j%d-p1", k), Job: k, Cpu: c, Mem: 500, Gpu: g, Phase: "P"})
+	}
+	sc.Normalize()
+	return sc
+}
+
+
+// generateFlat: small closed systems of single-pod whole-GPU jobs: 1-2 nodes, 2-3 leaf queues under one or two
+// departments with small quotas and over-quota weights 1-3, jobs of 1-3 GPUs with two priority levels, the cluster
+// (nearly) full and several pending jobs per queue - including jobs too big to ever fit at the head of a queue.
+// No gangs, no sharers: what repeats here is decided by queue order, fair share and victim selection alone.
+func generateFlat(r *rand.Rand) *Scenario {
+	pick := func(vs ...int) int { return vs[r.Intn(len(vs))] }
+	sc := &Scenario{Class: "flat"}
+	sc.Cfg = Cfg{Placement: []string{"binpack", "spread"}[r.Intn(2)], Consolidation: pick(0, 0, 1), Signatures: pick(0, 1),
+		ConsReclaim: pick(0, 0, 1), SatMult: pick(1000, 1000, 1200), Cycles: 8, Env: "closed", FullHier: 1}
+	nn := pick(1, 1, 2)
+	g := pick(2, 3, 4)
+	for i := 0; i < nn; i++ {
+		sc.Nodes = append(sc.Nodes, Node{Name: fmt.Sprintf("n%d", i+1), Cpu: 32000, Mem: 64000, Pods: 110, Gpus: g, GpuMem: 40000, Ready: 1})
+	}
+	sc.Queues = []Queue{{Name: "d1", Parent: 0, Prio: 100, GQ: -1, GL: -1, GW: 1, CQ: -1, CL: -1, MQ: -1, ML: -1}}
+	nd := 1
+	if r.Intn(3) == 0 {
+		sc.Queues = append(sc.Queues, Queue{Name: "d2", Parent: 0, Prio: 100, GQ: -1, GL: -1, GW: pick(1, 2), CQ: -1, CL: -1, MQ: -1, ML: -1})
+		nd = 2
+	}
+	var leaves []int
+	for i := 0; i < pick(2, 2, 3); i++ {
+		sc.Queues = append(sc.Queues, Queue{Name: fmt.Sprintf("q%d", i+1), Parent: 1 + r.Intn(nd), Prio: 100, GQ: pick(0, 1, 1, 2) * 1000, GL: -1,
+			GW: pick(1, 2, 3), CQ: -1, CL: -1, MQ: -1, ML: -1})
+		leaves = append(leaves, len(sc.Queues))
+	}
+	free := make([]int, nn)
+	for i := range free {
+		free[i] = g
+	}
+	k := 0
+	add := func(leaf, size, prio int, node int) {
+		k++
+		ls := -1
+		phase := "P"
+		if node > 0 {
+			ls, phase = 36000, "R"
+		}
+		sc.Jobs = append(sc.Jobs, Job{Name: fmt.Sprintf("j%d", k), Queue: leaf, Prio: prio, Preempt: 1, Min: 1, Age: 600 + 60*r.Intn(60), LastStart: ls})
+		sc.Pods = append(sc.Pods, Pod{Name: fmt.Sprintf("j%d-p1", k), Job: k, Cpu: 500, Mem: 500, Gpu: size, Phase: phase, Node: node})
+	}
+	// running jobs: fill the nodes (sometimes leave one GPU idle)
+	for ni := 0; ni < nn; ni++ {
+		leave := pick(0, 0, 0, 1)
+		for free[ni] > leave {
+			size := pick(1, 1, 1, 2, 3)
+			if size > free[ni] {
+				size = free[ni]
+			}
+			add(leaves[r.Intn(len(leaves))], size, pick(50, 50, 75), ni+1)
+			free[ni] -= size
+		}
+	}
+	// pending jobs
+	for i := 0; i < pick(1, 2, 3, 4); i++ {
+		add(leaves[r.Intn(len(leaves))], pick(1, 1, 1, 2, 3, 3), pick(50, 50, 75), 0)
 	}
 	sc.Normalize()
 	return sc
